@@ -139,6 +139,34 @@ pub fn drive(args: &[String]) {
     for s in &big {
         emit_all(&mut sink, &dsym_json(s), &mut rng, false, 3);
     }
+    // (b2) the constructors of derived.rs on complete symbols, beyond the listed properties: dual, subsymbol (every index
+    // pair / triple, a few seeds), the generic cover constructor with an explicit sheet map
+    for s in syms_from_files(&files).iter().chain(big.iter()) {
+        if !s.is_complete() || s.size() > 12 { continue; }
+        let (n, dim) = (s.size(), s.dim());
+        let mut e = json!({"ev": "derived", "sym": dsym_json(s)});
+        pending(&e);
+        match catch(|| {
+            let d = dual(s);
+            let dd = dual(&d);
+            let mut subs = vec![];
+            for i in 0..=dim { for j in (i + 1)..=dim {
+                let seed = rng.gen_range(1..=n);
+                subs.push(json!({"idcs": [i, j], "seed": seed, "out": dsym_json(&subsymbol(s, [i, j], seed))}));
+                for k in (j + 1)..=dim { let seed = rng.gen_range(1..=n); subs.push(json!({"idcs": [i, j, k], "seed": seed, "out": dsym_json(&subsymbol(s, [i, j, k], seed))})); }
+            } }
+            // a 2-sheeted cover by an explicit sheet map: the gauge transform of the trivial cover by a random 0/1 labelling f
+            // of the chambers (facet (i, d) changes the sheet iff f differs across it), valid for every symbol
+            let f: Vec<usize> = (0..=n).map(|_| rng.gen_range(0..2)).collect();
+            let sm: Vec<Vec<usize>> = (0..=dim).map(|i| (1..=n).map(|d| f[d] ^ f[s.op(i, d).unwrap()]).collect()).collect();
+            let cov = cover(s, 2, |sheet, i, d| (sheet + sm[i][d - 1]) % 2);
+            (d, dd, subs, sm, cov)
+        }) {
+            Ok((d, dd, subs, sm, cov)) => { e["dual"] = dsym_json(&d); e["dualdual"] = dsym_json(&dd); e["subs"] = json!(subs); e["sheetmap"] = json!(sm); e["cover"] = dsym_json(&cov); }
+            Err(m) => { e["panic"] = json!(m); }
+        }
+        sink.emit(e);
+    }
     // (c) disconnected symbols: disjoint unions of connected generator outputs, in both orders (every
     // predicate and traversal law is about ALL components, not only the one of chamber 1)
     let thorough = std::env::var("DSV_THOROUGH").is_ok();
